@@ -132,7 +132,17 @@ theorem events_eq_expected {p : Path} (hg : p.good = true) : p.events = p.expect
     simp [Path.good, Path.valid, Path.shutdown, Path.defect] at hg
     simp [Path.events, Path.expected, Path.request, Path.clientStatus, writeErrorResponse,
       writeResponse_wrote (skip_false_of_not_connect w hg.1 (ge400_ne101 st hg.2))]
-  | transportConnectRejected m st w => simp [Path.good, Path.defect] at hg
+  | transportConnectRejected m st w =>
+    simp [Path.good, Path.valid, Path.shutdown, Path.defect] at hg
+    obtain ⟨⟨hm, _⟩, hd⟩ := hg
+    have hs : skipTraceWroteResponse m st w = false := by
+      cases w with
+      | true => exact skip_false_of_err _ _
+      | false =>
+        have : st ≠ 101 := by simpa using hd
+        exact skip_false_of_not_connect false hm this
+    simp [Path.events, Path.expected, Path.request, Path.clientStatus, writeErrorResponse,
+      writeResponse_wrote hs]
   | responseModifierError m st w =>
     simp [Path.good, Path.valid, Path.shutdown, Path.defect] at hg
     simp [Path.events, Path.expected, Path.request, Path.clientStatus, writeErrorResponse,
@@ -346,15 +356,66 @@ def owed (m : Method) : List Event → Nat
 
 def owedSum (m : Method) (ls : List (List Event)) : Nat := (ls.map (owed m)).sum
 
-/-- the shapes the remaining part of a good exchange can have -/
+/-- the shapes the remaining part of an exchange can have: nothing, a request and its report (under
+    the request's own method), the report alone, or a request that is never reported (shutdown, F40) -/
 def Rem (l : List Event) : Prop :=
-  l = [] ∨ (∃ a s, l = [.read a, .wrote a s]) ∨ (∃ a s, l = [.wrote a s])
+  l = [] ∨ (∃ a s, l = [.read a, .wrote a s]) ∨ (∃ a s, l = [.wrote a s]) ∨ (∃ a, l = [.read a])
 
 theorem rem_expected (p : Path) : Rem p.expected := by
   unfold Path.expected
   cases p.request with
   | none => exact Or.inl rfl
   | some m => exact Or.inr (Or.inl ⟨m, _, rfl⟩)
+
+theorem writeResponse_shape (m : Method) (st : Nat) (w : Bool) :
+    writeResponse m st w = [] ∨ writeResponse m st w = [.wrote m st] := by
+  unfold writeResponse
+  split
+  · exact Or.inl rfl
+  · exact Or.inr rfl
+
+theorem rem_read_cons (m : Method) (st : Nat) (w : Bool) : Rem (.read m :: writeResponse m st w) := by
+  rcases writeResponse_shape m st w with h | h <;> rw [h]
+  · exact Or.inr (Or.inr (Or.inr ⟨m, rfl⟩))
+  · exact Or.inr (Or.inl ⟨m, st, rfl⟩)
+
+/-- EVERY path of the grammar — whatever its status, also the shutdown path and the F40 paths —
+    emits at most one `read` and reports it, if at all, under the same method -/
+theorem rem_events (p : Path) : Rem p.events := by
+  cases p with
+  | readError => exact Or.inl rfl
+  | shutdownAfterRead m => exact Or.inr (Or.inr (Or.inr ⟨m, rfl⟩))
+  | refused m st w => exact rem_read_cons m st w
+  | roundTripError m st w => exact rem_read_cons m st w
+  | transportConnectRejected m st w => exact rem_read_cons m st w
+  | responseModifierError m st w => exact rem_read_cons m st w
+  | response m st w => exact rem_read_cons m st w
+  | upgradeNonWritable m => exact Or.inr (Or.inl ⟨m, 101, rfl⟩)
+  | upgrade m e =>
+    simp only [Path.events, tunnel_upgrade]
+    exact Or.inr (Or.inl ⟨m, 101, rfl⟩)
+  | connectRefused st w => exact rem_read_cons .connect st w
+  | connectDialFailure st w => exact rem_read_cons .connect st w
+  | connectResponseModifierError st w => exact rem_read_cons .connect st w
+  | connectRejected st w => exact rem_read_cons .connect st w
+  | connectTunnel e =>
+    simp only [Path.events, tunnel_connect]
+    exact Or.inr (Or.inl ⟨.connect, 200, rfl⟩)
+  | mitmResponseModifierError st w => exact rem_read_cons .connect st w
+  | mitmWriteError => exact rem_read_cons .connect 200 true
+  | mitmHandoff =>
+    simp only [Path.events, writeResponse, skip_true_connect_200, if_true, List.nil_append]
+    exact Or.inr (Or.inl ⟨.connect, 200, rfl⟩)
+
+/-- no path starts by owing a report -/
+theorem owed_events (p : Path) (m : Method) : owed m p.events = 0 := by
+  rcases rem_events p with h | ⟨a, s, h⟩ | ⟨a, s, h⟩ | ⟨a, h⟩
+  · rw [h]; rfl
+  · rw [h]; rfl
+  · -- a path never consists of a report alone
+    exfalso
+    cases p <;> simp [Path.events, writeErrorResponse, tunnel_upgrade, tunnel_connect] at h
+  · rw [h]; rfl
 
 theorem owed_expected (p : Path) (m : Method) : owed m p.expected = 0 := by
   unfold Path.expected
@@ -366,9 +427,10 @@ theorem owedSum_append_cons (m : Method) (l1 l2 : List (List Event)) (x : List E
     owedSum m (l1 ++ x :: l2) = owedSum m l1 + owed m x + owedSum m l2 := by
   simp [owedSum, List.sum_append]; omega
 
-/-- generalised invariant: the gauge equals the number of owed completions, at every prefix -/
+/-- generalised invariant: the gauge is at least the number of owed completions, at every prefix
+    (equal to it but for the requests that are never reported) -/
 theorem interleaving_inflight {ls : List (List Event)} {tr : List Event} (hi : Interleaving ls tr)
-    (m : Method) : (∀ l ∈ ls, Rem l) → ∀ (c : Counters), c.inflight m = (owedSum m ls : Int) →
+    (m : Method) : (∀ l ∈ ls, Rem l) → ∀ (c : Counters), (owedSum m ls : Int) ≤ c.inflight m →
     ∀ pre suf, tr = pre ++ suf → 0 ≤ (run c pre).inflight m := by
   induction hi with
   | nil =>
@@ -378,14 +440,17 @@ theorem interleaving_inflight {ls : List (List Event)} {tr : List Event} (hi : I
       | nil => rfl
       | cons a t => simp at h
     subst this
-    simp [run, hc, owedSum]
+    simp only [run, List.foldl_nil]
+    omega
   | drop _ ih =>
     intro hr c hc pre suf h
     exact ih (fun l hl => hr l (List.mem_cons_of_mem _ hl)) c (by simpa [owedSum, owed] using hc) pre suf h
   | @step l1 l2 e rest tr' _ ih =>
     intro hr c hc pre suf h
     cases pre with
-    | nil => simp [run, hc]
+    | nil =>
+      simp only [run, List.foldl_nil]
+      omega
     | cons a t =>
       have hhead : e = a := by simpa using (List.cons.inj (by simpa using h)).1
       have htail : tr' = t ++ suf := by simpa using (List.cons.inj (by simpa using h)).2
@@ -398,16 +463,18 @@ theorem interleaving_inflight {ls : List (List Event)} {tr : List Event} (hi : I
         · exact hr l (List.mem_append_left _ h1)
         · rcases List.mem_cons.mp h2 with h3 | h4
           · rw [h3]
-            rcases hrem with h0 | ⟨a, s, h1⟩ | ⟨a, s, h1⟩
+            rcases hrem with h0 | ⟨a, s, h1⟩ | ⟨a, s, h1⟩ | ⟨a, h1⟩
             · simp at h0
             · have : rest = [.wrote a s] := by simpa using (List.cons.inj h1).2
-              exact Or.inr (Or.inr ⟨a, s, this⟩)
+              exact Or.inr (Or.inr (Or.inl ⟨a, s, this⟩))
+            · have : rest = [] := by simpa using (List.cons.inj h1).2
+              exact Or.inl this
             · have : rest = [] := by simpa using (List.cons.inj h1).2
               exact Or.inl this
           · exact hr l (List.mem_append_right _ (List.mem_cons_of_mem _ h4))
       apply ih hr' (c.apply e) _ t suf htail
       rw [owedSum_append_cons] at hc ⊢
-      rcases hrem with h0 | ⟨a, s, h1⟩ | ⟨a, s, h1⟩
+      rcases hrem with h0 | ⟨a, s, h1⟩ | ⟨a, s, h1⟩ | ⟨a, h1⟩
       · simp at h0
       · have he : e = .read a := by simpa using (List.cons.inj h1).1
         have hrest : rest = [.wrote a s] := by simpa using (List.cons.inj h1).2
@@ -417,6 +484,13 @@ theorem interleaving_inflight {ls : List (List Event)} {tr : List Event} (hi : I
         · have ham' : ¬ m = a := fun e => ham e.symm
           simp [Counters.apply, owed, ham, ham'] at hc ⊢; omega
       · have he : e = .wrote a s := by simpa using (List.cons.inj h1).1
+        have hrest : rest = [] := by simpa using (List.cons.inj h1).2
+        subst he; subst hrest
+        by_cases ham : a = m
+        · subst ham; simp [Counters.apply, owed] at hc ⊢; omega
+        · have ham' : ¬ m = a := fun e => ham e.symm
+          simp [Counters.apply, owed, ham, ham'] at hc ⊢; omega
+      · have he : e = .read a := by simpa using (List.cons.inj h1).1
         have hrest : rest = [] := by simpa using (List.cons.inj h1).2
         subst he; subst hrest
         by_cases ham : a = m
